@@ -55,6 +55,17 @@ def run(ctx, res):
         lb = b'[[' + v + b']]'
         srcs += [b'a=' + sq + b' b=' + dq + b'\n', b'a=' + dq + b' b=' + sq + b'\n', b'a=' + sq + b'\n', b'a=' + dq + b'\n', b'a=' + sq + b'\n',
                  b'a=' + lb + b' b=' + dq + b' c=' + sq + b'\n']
+    # escapes whose *value* is itself a character that matters to the string reader (backslash, quotes, line ends, NUL, 'x', a digit), in
+    # every spelling, followed by every character that could be read as the continuation of an escape
+    followers = [b'n', b't', b'a', b'\\\\', b'\\"', b"'", b'x41', b'0', b'65', b'*', b'-', b'^', b'z', b'\\n', b'\\92', b'\\x5c', b'']
+    for q in (b'"', b"'"):
+        for v in (92, 34, 39, 10, 13, 0, 120, 48, 110):
+            for sp in (b'\\%d' % v, b'\\%03d' % v, b'\\x%02x' % v, b'\\x%02X' % v):
+                for f in followers:
+                    if q == b"'" and f == b"'":
+                        f = b'"'
+                    srcs.append(b's=' + q + sp + f + q + b' t=' + q + b'k' + sp + sp + f + q + b'\n')
+    srcs += gen_lua.string_escape_cases(rng, ctx.budget(600, 12000))
     spec_lines, model_lines, impl = [], [], []
     for s in srcs:
         try:
